@@ -34,7 +34,8 @@ N == Len(inp)
 Dec(p) == IF p >= N THEN [r |-> "ERR", w |-> 0]
           ELSE LET b == inp[p + 1] IN
                IF b = "E1" /\ p + 1 < N /\ inp[p + 2] = "E2" THEN [r |-> "EE", w |-> 2]
-               ELSE IF b \in {"E1", "E2", "bad"} THEN [r |-> "ERR", w |-> 1]
+               ELSE IF b = "F1" /\ p + 1 < N /\ inp[p + 2] = "F2" THEN [r |-> "EE", w |-> 2]     \* a second two-byte letter
+               ELSE IF b \in {"E1", "E2", "F1", "F2", "bad"} THEN [r |-> "ERR", w |-> 1]
                ELSE [r |-> b, w |-> 1]
 ByteAt(p) == IF p < N THEN inp[p + 1] ELSE "EOF"
 Pref(p, s) == /\ p < N                      \* rest() is "" at EOF
@@ -46,6 +47,10 @@ AtEOLv(p) == Dec(p).r = "nl" \/ Pref(p, <<"cr", "nl">>)
 \* backup from position p with width w on line ln: new (pos, line)
 BackPos(p, w) == p - w
 BackLine(p, w, ln) == IF w = 1 /\ ByteAt(p - w) = "nl" THEN ln - 1 ELSE ln
+
+\* strings.TrimRight(all(), "\r"): step back over trailing carriage returns, not beyond the token start
+RECURSIVE TrimCR(_, _)
+TrimCR(st, p) == IF p > st /\ ByteAt(p - 1) = "cr" THEN TrimCR(st, p - 1) ELSE p
 
 Tok(ty, s, e, ln) == [ty |-> ty, s |-> s, e |-> e, ln |-> ln, ml |-> 0]
 ErrTok(ml) == [ty |-> "ERROR", s |-> start, e |-> start, ln |-> sline, ml |-> ml]
@@ -136,11 +141,12 @@ Body1 == /\ fn = "Body1" /\ Ready
 RBrace == fn = "RBrace" /\ Ready /\ EmitGo("RBRACE", pos + 1, line, width, "Start0", "")
 Cmds == /\ fn = "Cmds" /\ Ready
         /\ LET d == Dec(pos) p1 == pos + d.w ln1 == IF d.r = "nl" THEN line + 1 ELSE line IN
-           CASE d.r = "nl" -> LET pe == IF Variant = "fixed" /\ pos > start /\ ByteAt(pos - 1) = "cr" THEN pos - 1 ELSE pos IN
+           CASE d.r = "nl" -> LET pe == IF Variant = "fixed" THEN TrimCR(start, pos) ELSE pos IN
                               EmitGo("COMMAND", pe, line, d.w, "WS", "Cmds")        \* backup; (drop a \r); emit; skipWS
              [] Pref(p1, <<"lb", "lb">>) -> Set("Cmds", "", start, p1 + 2, ln1, sline, d.w, toks)
              [] Pref(p1, <<"rb", "rb">>) -> Set("Cmds", "", start, p1 + 2, ln1, sline, d.w, toks)
-             [] d.r = "rb" -> LET pe == IF pos > start /\ ByteAt(pos - 1) = "sp" THEN pos - 1 ELSE pos IN
+             [] d.r = "rb" -> LET pe0 == IF pos > start /\ ByteAt(pos - 1) = "sp" THEN pos - 1 ELSE pos
+                                  pe == IF Variant = "fixed" THEN TrimCR(start, pe0) ELSE pe0 IN
                               IF pe > start
                               THEN Set("WS", "RBrace", pe, pe, line, line, d.w, Append(toks, Tok("COMMAND", start, pe, sline)))
                               ELSE Set("WS", "RBrace", start, pe, line, sline, d.w, toks)
